@@ -222,7 +222,7 @@ Definition msg_ttl (v : mval) : N :=
          end
   | _ => 0
   end.
-Definition admit (v : mval) : bool := negb (tc_bit (mv_hdr v)) && (0 <? msg_ttl v).
+Definition admissible (v : mval) : bool := negb (tc_bit (mv_hdr v)) && (0 <? msg_ttl v).
 
 (** answersQuestion(r, q) for a query whose (single) question has the tag [k];
     the tag also serves as the cache key (key derivation is property C04). *)
@@ -230,6 +230,13 @@ Definition answers (v : mval) (k : N) : bool :=
   match mv_q v with [x] => x =? k | _ => false end.
 
 (** * In-place mutations by the holders of a message *)
+
+Fixpoint del_nth {A} (i : nat) (l : list A) : list A :=
+  match l, i with
+  | [], _ => []
+  | _ :: t, O => t
+  | x :: t, S i' => x :: del_nth i' t
+  end.
 
 Fixpoint set_nth {A} (i : nat) (v : A) (l : list A) : list A :=
   match l, i with
@@ -250,6 +257,7 @@ Inductive mutation :=
 | MNewData (s : sec) (i : nat) (d : list N)        (* rdata = a new slice *)
 | MAppend (s : sec) (v : rval)                     (* m.s = append(m.s, new record); an OPT when v_type = 41 *)
 | MTrunc (s : sec) (n : nat)                       (* m.s = m.s[:n] *)
+| MDelete (s : sec) (i : nat)                      (* m.s = append(m.s[:i], m.s[i+1:]...) (popOpt) *)
 | MLinkRec (s : sec) (i : nat) (h' : nat) (s' : sec) (j : nat)    (* m.s[i] = m'.s'[j] (same pointer) *)
 | MLinkData (s : sec) (i : nat) (h' : nat) (s' : sec) (j : nat).  (* m.s[i].rdata = m'.s'[j].rdata (same backing array) *)
 
@@ -304,6 +312,8 @@ Definition mutate (H : heap) (m m' : nat) (mu : mutation) : heap :=
     put_a a (dat (ha H) a ++ [r]) H1
   | MTrunc s n =>
     let a := sec_arr mo s in put_a a (firstn n (dat (ha H) a)) H
+  | MDelete s i =>
+    let a := sec_arr mo s in put_a a (del_nth i (dat (ha H) a)) H
   | MLinkRec s i _ s' j =>
     match rec_at H m' s' j with
     | Some r' => let a := sec_arr mo s in put_a a (set_nth i r' (dat (ha H) a)) H
@@ -346,7 +356,7 @@ Fixpoint remove (k : N) (c : list (N * nat)) : list (N * nat) :=
     The caller's [m] itself is not kept. *)
 Definition save (k : N) (m : nat) (s : state) : state :=
   let v := value (hp s) m in
-  if answers v k && admit v then
+  if answers v k && admissible v then
     let '(H1, c) := copy_no_opt (hp s) m in
     mkst H1 ((k, c) :: cache s) (handles s) (served s)
   else s.
